@@ -407,6 +407,14 @@ def run_check(pid, tier, seed):
     ctx = mod.context(tier, seed)
     ctx.setdefault("tier", tier)
     ctx.setdefault("seed", seed)
+    try:
+        return _run_check(pid, tier, seed, mod, ctx, t0)
+    finally:
+        if hasattr(mod, "cleanup"):
+            mod.cleanup(ctx)
+
+
+def _run_check(pid, tier, seed, mod, ctx, t0):
     tot = bfs(mod, ctx) if mod.ENGINE.startswith("E2") and hasattr(mod, "build") else sweep(mod, ctx)
     if hasattr(mod, "post"):
         mod.post(tot, ctx)          # e.g. abstract fixed point, cross-unit checks
@@ -463,7 +471,11 @@ def run_replay(pid, path):
     mod = load_prop(pid)
     rec = json.load(open(path))
     ctx = mod.context(rec.get("tier", "quick"), rec.get("seed", 0))
-    got = mod.replay(rec["case"], ctx)
+    try:
+        got = mod.replay(rec["case"], ctx)
+    finally:
+        if hasattr(mod, "cleanup"):
+            mod.cleanup(ctx)
     print(f"replaying {path}\n case: {jkey(rec['case'])[:1500]}")
     if not got:
         print(" no violation on this tree")
